@@ -321,6 +321,10 @@ func Sqrt(ctx *expr.Context, input system.Collection, args ...expr.Expression) (
 	}
 	// Ceiling number
 	value := math.Sqrt(number)
+	// An input beyond the float64 range converts to +Inf, and so does its root.
+	if math.IsNaN(value) || math.IsInf(value, 0) {
+		return system.Collection{}, nil
+	}
 	result := decimal.NewFromFloat(value)
 	return system.Collection{system.Decimal(result)}, nil
 }
